@@ -39,14 +39,34 @@ class _Noise:
         return False
 
 
+def conv(x, dt):
+    """the same number in another legal Python/numpy type (value unchanged): 'np' -> numpy float64 (numpy int64 when
+    integral), 'int' -> python int when integral else python float, 'float' -> python float"""
+    if dt is None or x is None or isinstance(x, str):
+        return x
+    import numpy as np
+    integral = float(x) == int(x) if abs(x) < 2 ** 53 else False
+    if dt == "np":
+        return np.int64(int(x)) if integral and isinstance(x, int) else np.float64(x)
+    if dt == "npf":
+        return np.float64(x)
+    if dt == "int":
+        return int(x) if integral else float(x)
+    if dt == "float":
+        return float(x)
+    return x
+
+
 def construct(spec):
     """spec: dict(kind='ideal'|'l2', cap, init, maxP[, nl, ts, mode]); returns (battery|None, err)"""
     from acnportal.acnsim.models.battery import Battery, Linear2StageBattery
+    dt = spec.get("dtype")
     try:
         if spec["kind"] == "ideal":
-            return Battery(spec["cap"], spec["init"], spec["maxP"]), None
-        return Linear2StageBattery(spec["cap"], spec["init"], spec["maxP"], noise_level=spec["nl"],
-                                   transition_soc=spec["ts"], charge_calculation=spec["mode"]), None
+            return Battery(conv(spec["cap"], dt), conv(spec["init"], dt), conv(spec["maxP"], dt)), None
+        return Linear2StageBattery(conv(spec["cap"], dt), conv(spec["init"], dt), conv(spec["maxP"], dt),
+                                   noise_level=conv(spec["nl"], dt), transition_soc=conv(spec["ts"], dt),
+                                   charge_calculation=spec["mode"]), None
     except Exception as e:  # noqa
         return None, type(e).__name__
 
@@ -59,6 +79,17 @@ def fnum(x):
 
 
 def observe(b, err, rate):
+    o = _observe(b, err, rate)
+    # the public read-only views must report the same quantities as the attributes
+    try:
+        if fnum(b.current_charging_power) != fnum(b._current_charging_power) and o["err"] is None:
+            o["err"] = "PropertyMismatch(current_charging_power)"
+    except Exception as e:  # noqa
+        o["err"] = "PropertyRaised(%s)" % type(e).__name__
+    return o
+
+
+def _observe(b, err, rate):
     """non-finite observables (nan/inf, e.g. after a division by a zero voltage in numpy arithmetic) cannot be
     rationals: they are recorded as the pseudo-exception "NonFinite" with the offending fields zeroed, which no
     model outcome matches"""
@@ -71,10 +102,16 @@ def observe(b, err, rate):
     return dict(err=err, **vals)
 
 
-def apply_op(b, op):
-    """op: ('charge', pilot, V, T, noise) | ('reset', x|None) | ('setmode', str); returns obs"""
+def roundtrip(b):
+    """obj -> JSON string -> obj of the same class"""
+    return type(b).from_json(b.to_json())
+
+
+def apply_op(b, op, dt=None):
+    """op: ('charge', pilot, V, T, noise) | ('reset', x|None); returns obs.  (('json',) is handled by run_ops.)"""
     if op[0] == "charge":
         _, pilot, V, T, noise = op
+        pilot, V, T = conv(pilot, dt), conv(V, dt), conv(T, dt)
         err, rate = None, 0
         with _Noise(noise), warnings.catch_warnings():
             warnings.simplefilter("ignore")
@@ -89,7 +126,7 @@ def apply_op(b, op):
             if op[1] is None:
                 b.reset()
             else:
-                b.reset(op[1])
+                b.reset(conv(op[1], dt))
         except Exception as e:  # noqa
             err = type(e).__name__
         return observe(b, err, 0)
@@ -103,7 +140,43 @@ def run_impl(spec, ops):
         return dict(ctor_err=cerr, obs=[])
     if spec["kind"] == "l2" and spec.get("force_mode") is not None:
         b.charge_calculation = spec["force_mode"]        # attribute reassigned after construction
-    return dict(ctor_err=None, obs=[apply_op(b, op) for op in ops])
+    return dict(ctor_err=None, obs=run_ops(b, ops, spec.get("dtype"))[1])
+
+
+def run_ops(b, ops, dt=None):
+    """apply ops to the object (('json',) replaces it by its JSON round trip); returns (final object, obs list)"""
+    obs = []
+    for op in ops:
+        if op[0] == "json":
+            err = None
+            try:
+                with warnings.catch_warnings():
+                    warnings.simplefilter("ignore")
+                    b = roundtrip(b)
+            except Exception as e:  # noqa
+                err = type(e).__name__
+            obs.append(observe(b, err, 0))
+        else:
+            obs.append(apply_op(b, op, dt))
+    return b, obs
+
+
+def run_pair(spec_a, ops_a, spec_b, ops_b, order):
+    """two LIVE objects driven alternately (order: list of 0/1 = whose next operation runs); returns the two impl
+    records as run_impl would give them for each object alone — instances must not influence each other"""
+    a, ea = construct(spec_a)
+    b, eb = construct(spec_b)
+    if a is None or b is None:
+        return run_impl(spec_a, ops_a), run_impl(spec_b, ops_b)
+    objs, opss, obs, pos = [a, b], [list(ops_a), list(ops_b)], [[], []], [0, 0]
+    dts = [spec_a.get("dtype"), spec_b.get("dtype")]
+    seq = list(order) + [0] * len(ops_a) + [1] * len(ops_b)
+    for w in seq:
+        if pos[w] < len(opss[w]):
+            objs[w], o = run_ops(objs[w], [opss[w][pos[w]]], dts[w])
+            obs[w].extend(o)
+            pos[w] += 1
+    return dict(ctor_err=None, obs=obs[0]), dict(ctor_err=None, obs=obs[1])
 
 
 # ---------------------------------------------------------------------------------------------
@@ -124,6 +197,8 @@ def batt_coq(spec):
 
 
 def op_coq(op):
+    if op[0] == "json":
+        return "Roundtrip"
     if op[0] == "charge":
         _, pilot, V, T, noise = op
         return "(Charge %s %s %s %s %s)" % (q(pilot), q(V), q(T), q(noise), q(noise))
